@@ -91,6 +91,17 @@ func makeEC(g *mon.Rand, dir, label, curveName string, curve elliptic.Curve, hos
 		}
 	}
 	m.keys = []keyFile{{sec1, "SEC1 EC", false}, {p8, "PKCS#8 EC", false}}
+	// the form the signedexchange README documents: `openssl ecparam -name <curve> -genkey` writes an EC PARAMETERS
+	// block in front of the EC PRIVATE KEY block
+	withParams := filepath.Join(dir, label+"-sec1-with-params.pem")
+	oid := []byte{0x06, 0x08, 0x2a, 0x86, 0x48, 0xce, 0x3d, 0x03, 0x01, 0x07}
+	if curveName == "secp384r1" {
+		oid = []byte{0x06, 0x05, 0x2b, 0x81, 0x04, 0x00, 0x22}
+	}
+	if sec1Bytes, err := os.ReadFile(sec1); err == nil {
+		os.WriteFile(withParams, append(pem.EncodeToMemory(&pem.Block{Type: "EC PARAMETERS", Bytes: oid}), sec1Bytes...), 0o600)
+		m.keys = append(m.keys, keyFile{withParams, "EC PARAMETERS + SEC1 EC (openssl ecparam -genkey)", false})
+	}
 	if _, err := os.Stat(enc); err == nil {
 		m.keys = append(m.keys, keyFile{enc, "encrypted PKCS#8 EC", true})
 	}
